@@ -159,21 +159,26 @@ Fixpoint nearest_bound (k : consts) (ds : T) (x lo hi dir : list T) (ix : Z) (ac
   | _, _, _, _ => acc
   end.
 (* a free variable within rounding error of a bound is placed on it *)
-Definition snap1 (k : consts) (l h v : T) (b : Z) : T * Z * bool :=
+Definition snap1 (k : consts) (l h v : T) (b : Z) : T * Z * bool * bool :=
+  (* new value (assigned only if it differs: "if (x(ix) != x_bound) x(ix) = x_bound"), new flag, flagged, value changed *)
   if b =? 0 then
     let tol := omul O (ceps4 k) (omax (o1 O) (oabs v)) in
-    if oleb O (osub O h v) tol then (h, 1, true)
-    else if oleb O (osub O v l) tol then (l, -1, true)
-    else (v, b, false)
-  else (v, b, false).
-Fixpoint snap_all (k : consts) (lo hi x : list T) (bs : list Z) : list T * list Z * bool * bool :=
+    if oleb O (osub O h v) tol then (if oeqb O v h then v else h, 1, true, negb (oeqb O v h))
+    else if oleb O (osub O v l) tol then (if oeqb O v l then v else l, -1, true, negb (oeqb O v l))
+    else (v, b, false, false)
+  else (v, b, false, false).
+Fixpoint snap_all (k : consts) (lo hi x : list T) (bs : list Z) {struct x} : list T * list Z * bool * bool :=
   (* new x, new flags, some variable was flagged, some value changed *)
-  match lo, hi, x, bs with
-  | l :: lo', h :: hi', v :: x', b :: bs' =>
-    let '(v', b', hit) := snap1 k l h v b in
-    let '(xs, bss, anyhit, anychg) := snap_all k lo' hi' x' bs' in
-    (v' :: xs, b' :: bss, hit || anyhit, (hit && negb (oeqb O v' v)) || anychg)
-  | _, _, _, _ => ([], [], false, false)
+  match x with
+  | [] => ([], bs, false, false)
+  | v :: x' =>
+    match lo, hi, bs with
+    | l :: lo', h :: hi', b :: bs' =>
+      let '(v', b', hit, chg) := snap1 k l h v b in
+      let '(xs, bss, anyhit, anychg) := snap_all k lo' hi' x' bs' in
+      (v' :: xs, b' :: bss, hit || anyhit, chg || anychg)
+    | _, _, _ => (x, bs, false, false)
+    end
   end.
 Definition zero_bound (bs : list Z) (g : list T) : list T := map2 (fun b gi => if b =? 0 then gi else o0 O) bs g.
 Definition cg_refresh (s : cgsettings) (utd : Z) (x : list T) (cost_fn : T) (log : list (event (T:=T))) : T * list (event (T:=T)) :=
@@ -185,71 +190,84 @@ Definition cg_result (st : mstatus) (q : cg_state) (c : T) (log : list (event (T
 Definition cg_finish (s : cgsettings) (st : mstatus) (q : cg_state) : result (T:=T) :=
   let '(c, lg) := cg_refresh s (q_utd q) (q_x q) (q_cost q) (q_log q) in cg_result st q c lg.
 
+(* one iteration of the main loop in three stages (so that each can be reasoned about with its inputs as variables);
+   inl = the loop ends with this result, inr = state for the next iteration *)
+(* stage 3: what happens after the line search returned o *)
+Definition cg_after_ls (s : cgsettings) (k : consts) (lo hi : list T) (q2 : cg_state) (bs1 : list Z) (g dir : list T) (last_restart inear itype : Z)
+           (log1 : list (event (T:=T))) (gn : T) (o : ls_out) : result (T:=T) + cg_state :=
+  let log2 := log1 ++ ev_states (ls_log o) in
+  (* a bound was reached: flag it and place the variable exactly on it *)
+  let reached := match ls_status o with MBoundReached => true | _ => false end in
+  let i := Z.to_nat inear in
+  let xb := if 0 <? itype then nth i hi (o0 O) else nth i lo (o0 O) in
+  let changed := reached && negb (oeqb O (nth i (ls_x o) (o0 O)) xb) in
+  let x3 := if changed then set_nth i xb (ls_x o) else ls_x o in
+  let bs3 := if reached then set_nth i itype bs1 else bs1 in
+  let ls_st := if reached then MSuccess else ls_status o in
+  (* variables within rounding error of a bound *)
+  let '(x4, bs4, anyhit, anychg) := snap_all k lo hi x3 bs3 in
+  (* the state is no longer the one at which the line search evaluated the cost function: evaluate it again *)
+  let placed := changed || anychg in
+  let cost4 := if placed then cost x4 else ls_cost_fn o in
+  let utd4 := if placed then 0 else ls_utd o in
+  let samples4 := if placed then ls_samples o + 1 else ls_samples o in
+  let log3 := if placed then log2 ++ [EvCost x4] else log2 in
+  let restart4 := reached || anyhit in
+  let '(status, restart5) :=
+    match ls_st with
+    | MSuccess => (MNotYetConverged, restart4)
+    | _ => if negb (last_restart =? q_it q2) then (MNotYetConverged, true) else (ls_st, restart4)
+    end in
+  let it' := q_it q2 + 1 in
+  let status' := match status with MNotYetConverged => if g_max_it s <=? it' then MMaxIterations else MNotYetConverged | _ => status end in
+  let q3 := mkCgs x4 (ls_gradient o) g dir bs4 utd4 (omul O (ls_step o) (c2 k)) restart5 last_restart it' samples4 cost4 (q_start q2) gn log3 in
+  match status' with
+  | MNotYetConverged => inr q3
+  | _ => inl (cg_finish s status' q3)
+  end.
+(* stage 2: search direction, distance to the nearest bound, line search *)
+Definition cg_search (s : cgsettings) (k : consts) (fr : bool) (lo hi : list T) (nx : Z) (q2 : cg_state) (bs1 : list Z) (g : list T) (cf gn : T)
+           (restart1 : bool) (log1 : list (event (T:=T))) : result (T:=T) + cg_state :=
+  let restart2 := restart1 || (nx <? q_it q2 - q_last_restart q2) in
+  let beta := if fr then odiv O (dot g g) (dot (q_prev q2) (q_prev q2))
+              else omax (odiv O (fold_left (oadd O) (map2 (omul O) g (vsub g (q_prev q2))) (o0 O)) (dot (q_prev q2) (q_prev q2))) (o0 O) in
+  let dir := if restart2 then vneg g else vsub (vscale beta (q_dir q2)) g in
+  let last_restart := if restart2 then q_it q2 else if oleb O beta (o0 O) then q_it q2 else q_last_restart q2 in
+  let ds := norm2 dir in
+  let '(bstep, inear, itype) := nearest_bound k ds (q_x q2) lo hi dir 0 (cbig k, -1, 0) in
+  let o := if 0 <=? inear
+           then line_search s k (Some (lo, hi)) (q_x q2) dir (q_step q2) (g_curv s) bstep cf g (q_utd q2) (q_samples q2) []
+           else line_search s k None (q_x q2) dir (q_step q2) (g_curv s) (oneg O (o1 O)) cf g (q_utd q2) (q_samples q2) [] in
+  cg_after_ls s k lo hi q2 bs1 g dir last_restart inear itype log1 gn o.
+(* stage 1: cost function and gradient at x (unless the line search left them up to date), release of bound variables,
+   convergence test *)
+Definition cg_step (s : cgsettings) (k : consts) (fr : bool) (lo hi : list T) (nx : Z) (q : cg_state) : result (T:=T) + cg_state :=
+  let need := q_utd q <? 1 in
+  let cf := if need then cost (q_x q) else q_cost q in
+  let g0 := if need then grad (q_x q) else q_gradient q in
+  let q1 := if need then mkCgs (q_x q) g0 (q_prev q) (q_dir q) (q_bs q) 1 (q_step q) (q_restart q) (q_last_restart q) (q_it q) (q_samples q + 1) cf
+                               (if q_it q =? 0 then cf else q_start q) (q_gn q) (q_log q ++ [EvCostGradHess (q_x q)])
+            else q in
+  if need && negb (isfinite cf) then inl (cg_finish s MInvalidCost q1)
+  else if need && any_nonfinite g0 then inl (cg_finish s MInvalidGradient q1)
+  else
+    (* release variables whose bound is not consistent with the gradient *)
+    let rel := can_release O (q_bs q1) g0 in
+    let bs1 := if rel then release1 O (q_bs q1) g0 else q_bs q1 in
+    let restart1 := q_restart q1 || rel in
+    let nfree := Z.of_nat (length bs1) - count_bound bs1 in
+    let g := zero_bound bs1 g0 in
+    let gn := if 0 <? nfree then norm2 g else o0 O in
+    let log1 := q_log q1 ++ [EvProgress (q_it q1) (q_x q1) cf gn] in
+    let q2 := mkCgs (q_x q1) g (q_prev q1) (q_dir q1) bs1 (q_utd q1) (q_step q1) restart1 (q_last_restart q1) (q_it q1) (q_samples q1) cf (q_start q1) gn log1 in
+    if oleb O gn (g_thr s) then inl (cg_finish s MSuccess q2)
+    else cg_search s k fr lo hi nx q2 bs1 g cf gn restart1 log1.
 Fixpoint cgb_loop (fuel : nat) (s : cgsettings) (k : consts) (fr : bool) (lo hi : list T) (nx : Z) (q : cg_state) : result (T:=T) :=
   match fuel with 0%nat => cg_result MOutOfFuel q (q_cost q) (q_log q) | S fuel' =>
-    (* cost function and gradient at x, unless the line search left them up to date *)
-    let need := q_utd q <? 1 in
-    let cf := if need then cost (q_x q) else q_cost q in
-    let g0 := if need then grad (q_x q) else q_gradient q in
-    let q1 := if need then mkCgs (q_x q) g0 (q_prev q) (q_dir q) (q_bs q) 1 (q_step q) (q_restart q) (q_last_restart q) (q_it q) (q_samples q + 1) cf
-                                 (if q_it q =? 0 then cf else q_start q) (q_gn q) (q_log q ++ [EvCostGradHess (q_x q)])
-              else q in
-    if need && negb (isfinite cf) then cg_finish s MInvalidCost q1
-    else if need && any_nonfinite g0 then cg_finish s MInvalidGradient q1
-    else
-      (* release variables whose bound is not consistent with the gradient *)
-      let rel := can_release O (q_bs q1) g0 in
-      let bs1 := if rel then release1 O (q_bs q1) g0 else q_bs q1 in
-      let restart1 := q_restart q1 || rel in
-      let nfree := Z.of_nat (length bs1) - count_bound bs1 in
-      let g := zero_bound bs1 g0 in
-      let gn := if 0 <? nfree then norm2 g else o0 O in
-      let log1 := q_log q1 ++ [EvProgress (q_it q1) (q_x q1) cf gn] in
-      let q2 := mkCgs (q_x q1) g (q_prev q1) (q_dir q1) bs1 (q_utd q1) (q_step q1) restart1 (q_last_restart q1) (q_it q1) (q_samples q1) cf (q_start q1) gn log1 in
-      if oleb O gn (g_thr s) then cg_finish s MSuccess q2
-      else
-        let restart2 := restart1 || (nx <? q_it q2 - q_last_restart q2) in
-        let '(dir, last_restart) :=
-          if restart2 then (vneg g, q_it q2)
-          else
-            let beta := if fr then odiv O (dot g g) (dot (q_prev q2) (q_prev q2))
-                        else omax (odiv O (fold_left (oadd O) (map2 (omul O) g (vsub g (q_prev q2))) (o0 O)) (dot (q_prev q2) (q_prev q2))) (o0 O) in
-            (vsub (vscale beta (q_dir q2)) g, if oleb O beta (o0 O) then q_it q2 else q_last_restart q2) in
-        let ds := norm2 dir in
-        let '(bstep, inear, itype) := nearest_bound k ds (q_x q2) lo hi dir 0 (cbig k, -1, 0) in
-        let o := if 0 <=? inear
-                 then line_search s k (Some (lo, hi)) (q_x q2) dir (q_step q2) (g_curv s) bstep cf g (q_utd q2) (q_samples q2) []
-                 else line_search s k None (q_x q2) dir (q_step q2) (g_curv s) (oneg O (o1 O)) cf g (q_utd q2) (q_samples q2) [] in
-        let log2 := log1 ++ ev_states (ls_log o) in
-        (* a bound was reached: flag it and place the variable exactly on it *)
-        let reached := match ls_status o with MBoundReached => true | _ => false end in
-        let i := Z.to_nat inear in
-        let xb := if 0 <? itype then nth i hi (o0 O) else nth i lo (o0 O) in
-        let changed := reached && negb (oeqb O (nth i (ls_x o) (o0 O)) xb) in
-        let x3 := if reached then set_nth i xb (ls_x o) else ls_x o in
-        let bs3 := if reached then set_nth i itype bs1 else bs1 in
-        let ls_st := if reached then MSuccess else ls_status o in
-        (* variables within rounding error of a bound *)
-        let '(x4, bs4, anyhit, anychg) := snap_all k lo hi x3 bs3 in
-        (* the state is no longer the one at which the line search evaluated the cost function: evaluate it again *)
-        let placed := changed || anychg in
-        let cost4 := if placed then cost x4 else ls_cost_fn o in
-        let utd4 := if placed then 0 else ls_utd o in
-        let samples4 := if placed then ls_samples o + 1 else ls_samples o in
-        let log3 := if placed then log2 ++ [EvCost x4] else log2 in
-        let restart4 := reached || anyhit in
-        let '(status, restart5) :=
-          match ls_st with
-          | MSuccess => (MNotYetConverged, restart4)
-          | _ => if negb (last_restart =? q_it q2) then (MNotYetConverged, true) else (ls_st, restart4)
-          end in
-        let it' := q_it q2 + 1 in
-        let status' := match status with MNotYetConverged => if g_max_it s <=? it' then MMaxIterations else MNotYetConverged | _ => status end in
-        let q3 := mkCgs x4 (ls_gradient o) g dir bs4 utd4 (omul O (ls_step o) (c2 k)) restart5 last_restart it' samples4 cost4 (q_start q2) gn log3 in
-        match status' with
-        | MNotYetConverged => cgb_loop fuel' s k fr lo hi nx q3
-        | _ => cg_finish s status' q3
-        end
+    match cg_step s k fr lo hi nx q with
+    | inl r => r
+    | inr q' => cgb_loop fuel' s k fr lo hi nx q'
+    end
   end.
 
 Definition cg_bounded (fuel : nat) (s : cgsettings) (k : consts) (fr : bool) (lo hi x : list T) (minus_one inf : T) : result (T:=T) :=
@@ -278,12 +296,10 @@ Fixpoint cgu_loop (fuel : nat) (s : cgsettings) (k : consts) (fr : bool) (nx : Z
       if oleb O gn (g_thr s) then cg_finish s MSuccess q2
       else
         let restart2 := q_restart q2 || (nx <? q_it q2 - q_last_restart q2) in
-        let '(dir, last_restart) :=
-          if restart2 then (vneg g, q_it q2)
-          else
-            let beta := if fr then odiv O (dot g g) (dot (q_prev q2) (q_prev q2))
-                        else omax (odiv O (fold_left (oadd O) (map2 (omul O) g (vsub g (q_prev q2))) (o0 O)) (dot (q_prev q2) (q_prev q2))) (o0 O) in
-            (vsub (vscale beta (q_dir q2)) g, if oleb O beta (o0 O) then q_it q2 else q_last_restart q2) in
+        let beta := if fr then odiv O (dot g g) (dot (q_prev q2) (q_prev q2))
+                    else omax (odiv O (fold_left (oadd O) (map2 (omul O) g (vsub g (q_prev q2))) (o0 O)) (dot (q_prev q2) (q_prev q2))) (o0 O) in
+        let dir := if restart2 then vneg g else vsub (vscale beta (q_dir q2)) g in
+        let last_restart := if restart2 then q_it q2 else if oleb O beta (o0 O) then q_it q2 else q_last_restart q2 in
         let o := line_search s k None (q_x q2) dir (q_step q2) (g_curv s) (oneg O (o1 O)) cf g 1 (q_samples q2) [] in
         let log2 := log1 ++ ev_states (ls_log o) in
         let '(status, restart5) :=
